@@ -405,7 +405,10 @@ class Module:
                 size = msize or mt.get("size", 0)
                 if moff == off and mname:
                     out.append((mname, size))
-                if moff <= off < moff + max(size, 1):
+                # trailing flexible array member (records[] of dispatch_data_s): offsets beyond the struct index into it
+                flexible = depth == 0 and k == "struct" and mt.get("k") == "array" and not mt.get("count") and \
+                    moff == max(m[1] for m in t["members"]) and moff >= t.get("size", 0) - 0 and off >= moff
+                if moff <= off < moff + max(size, 1) or flexible:
                     self._descend(mt, off - moff, out, depth + 1)
         elif k == "array":
             et = self.types[t["elem"]]
